@@ -167,9 +167,9 @@ def cache_state(ae):
 def apply_letter(ae, letter):
     m, f, pi, ui = letter
     if SYMBOLIC_OK[0]:
-        return evaluate(ae, m, VERTS, MOTIFS[m], f, Poly.const(PHIS[pi]),
+        return evaluate(ae, NAMES[0][m], VERTS, MOTIFS[m], f, Poly.const(PHIS[pi]),
                         {v: Poly.const(x) for v, x in US[ui].items()})
-    return evaluate(ae, m, VERTS, MOTIFS[m], f, float(PHIS[pi]), {v: float(x) for v, x in US[ui].items()})
+    return evaluate(ae, NAMES[0][m], VERTS, MOTIFS[m], f, float(PHIS[pi]), {v: float(x) for v, x in US[ui].items()})
 
 
 def same_value(a, b):
@@ -178,7 +178,26 @@ def same_value(a, b):
     return abs(float(a) - float(b)) <= 1e-12
 
 
+NAME_SETS = [
+    {"tail": "tail", "cyc": "cyc", "dia": "dia"},
+    # distinct names that collide under careless key construction: different case, a vertex-like prefix + delimiter
+    {"tail": "M", "cyc": "m", "dia": "3-m"},
+]
+NAMES = [NAME_SETS[0]]
+
+
 def run_history(res):
+    for names in NAME_SETS:
+        NAMES[0] = names
+        try:
+            _run_history(res)
+        finally:
+            NAMES[0] = NAME_SETS[0]
+        if res.violations:
+            return
+
+
+def _run_history(res):
     from gcmpy.message_passing.equations.automated_equation import AutomatedEquation
     p = Poly.var("p")
     usym = {v: Poly.var(f"u{v}") for v in VERTS}
@@ -223,7 +242,8 @@ def run_history(res):
             if not same_value(val, fresh[letter]) or not same_value(val, truth[letter] if SYMBOLIC_OK[0]
                                                                      else float(truth[letter])):
                 res.violation("C15:history-dependent",
-                              f"after history {hist} the evaluation {letter} (motif, focal, phi#, u#) returns {val}; "
+                              f"motif names {NAMES[0]}: after history {hist} the evaluation {letter} (motif, focal, "
+                              f"phi#, u#) returns {val}; "
                               f"a fresh evaluator returns {fresh[letter]}, the exact expectation is {truth[letter]}",
                               {"kind": "history"}, history=h2)
                 return
